@@ -1,6 +1,6 @@
 (* C14/Properties.v — property theorems only; each closed by a lemma of C14/Proofs.v. *)
 From Relic Require Import Base.Prelude Generated.C14_gen C14.Model C14.Proofs.
-From Relic Require C14.ModelCache C14.ProofsCache C14.ModelRate C14.ProofsRate C14.ModelShut C14.ProofsShut C14.ModelInit C14.ProofsInit.
+From Relic Require C14.ModelCache C14.ProofsCache C14.ModelRate C14.ProofsRate C14.ModelShut C14.ProofsShut C14.ModelInit C14.ProofsInit C14.ModelProc C14.ProofsProc.
 From Coq Require Import Permutation Sorted.
 
 (* every request that completes receives exactly what it would receive alone: signature over ITS body with ITS key
@@ -295,6 +295,100 @@ Example ex_shutdown_mid_request :   (* request 0 accepted, shutdown arrives, req
   ss_trace s = [TClose; TPong; TPing; TUse 0; TUse 0].
 Proof. vm_compute. repeat split; reflexivity. Qed.
 End ShutProps.
+
+(* =====================================================================================================================
+   (c') shutdown of the PROCESS: `relic serve` blocks on Daemon.Serve (the errgroup's Wait); a signal makes watchSignals run
+   Daemon.Close on another goroutine; the process is gone when main returns. Goroutines run the programs srcgen translates
+   from serveCmd, Daemon.Serve, Daemon.Close and watchSignals *)
+Section ProcProps.
+Import C14.ModelProc C14.ProofsProc.
+
+(* THE PROPERTY: under every interleaving of goroutine steps, handler steps, signals, the watcher's receives and clock
+   ticks, for every number of listeners and handlers: unless the exit was forced (second signal -> os.Exit, a signal
+   before signal.Notify, a handler outliving the grace period) no accepted request is cut off or loses its token, and
+   when the process has gone away nothing was left running and the tokens had been closed first *)
+Theorem proc_shutdown_lets_requests_finish : forall nlis n sched, (1 <= nlis)%nat ->
+  let s := prun nlis n sched in p_forced s = false -> spec_ok s = true.
+Proof. exact C14.ProofsProc.proc_shutdown_lets_requests_finish. Qed.
+(* Serve returns last: when main has returned from Daemon.Serve, Shutdown has returned, server.Close has run, and no
+   handler is running or was cut *)
+Theorem serve_returns_last : forall nlis n sched t0, (1 <= nlis)%nat ->
+  let s := prun nlis n sched in
+  nth_error (p_thr s) 0 = Some t0 -> t_done t0 = true \/ (t_ops t0 = [] /\ t_items t0 = []) ->
+  p_tok_closed s = true /\ p_drained s = true /\ p_insh s = true /\
+  (p_forced s = false -> existsb pactive (p_req s) = false /\ forallb req_ok (p_req s) = true).
+Proof. exact C14.ProofsProc.serve_returns_last. Qed.
+(* main returns only after a graceful shutdown was started, and then with exit code 0 (that of shared.Fail, 70, when Shutdown
+   ran into its deadline) *)
+Theorem graceful_exit_code : forall nlis n sched, (1 <= nlis)%nat ->
+  let s := prun nlis n sched in p_alive s = false -> p_how s = 1 ->
+  p_code s = (if p_forced s then timeout_exit_code else 0) /\ p_closing s = true /\ p_tok_closed s = true.
+Proof. exact C14.ProofsProc.graceful_exit_code. Qed.
+Theorem proc_tokens_closed_after_handlers : forall nlis n sched, (1 <= nlis)%nat ->
+  let s := prun nlis n sched in p_tok_closed s = true -> p_forced s = false -> existsb pactive (p_req s) = false.
+Proof. exact C14.ProofsProc.proc_tokens_closed_after_handlers. Qed.
+(* liveness: no deadlock between Serve's Wait, Close's Wait and the member running Shutdown; a blocked goroutine does not
+   move; and from every reachable state with a shutdown under way and no handler running the process does exit, through
+   main, with code 0 *)
+Theorem proc_no_deadlock : forall nlis s, PInv nlis s -> p_alive s = true -> p_closing s = true -> existsb pactive (p_req s) = false ->
+  exists i, enabled s i = true.
+Proof. exact C14.ProofsProc.proc_no_deadlock. Qed.
+Theorem blocked_is_noop : forall pg nlis s i, enabled s i = false -> tstep pg nlis s i = s.
+Proof. exact C14.ProofsProc.blocked_is_noop. Qed.
+Theorem proc_exits : forall nlis s, PInv nlis s -> p_alive s = true -> p_closing s = true -> existsb pactive (p_req s) = false ->
+  p_forced s = false ->
+  exists sched, Forall is_thr sched /\
+    let s' := fold_left (pstep real_progs nlis) sched s in p_alive s' = false /\ p_how s' = 1 /\ p_code s' = 0.
+Proof. exact C14.ProofsProc.proc_exits. Qed.
+Theorem reachable_states_satisfy_PInv : forall nlis n sched, (1 <= nlis)%nat -> PInv nlis (prun nlis n sched).
+Proof. exact C14.ProofsProc.pinv_run. Qed.
+(* the source facts: the translated programs, the watcher's decision, the grace period and the exit code *)
+Theorem proc_programs :
+  main_prog = [(2, [5]); (0, [6])] /\ daemon_serve_prog = [(3, [1]); (0, [4])] /\ daemon_close_prog = [(1, [2; 3]); (0, [4])] /\
+  daemon_close_prog_guards = [] /\ daemon_serve_prog_guards = [] /\ servecmd_prog_guards = [] /\
+  grace = daemon_shutdown_timeout /\ 300 * 1000000000 <= grace /\ main_exit_code = 0 /\ sig_loop_forever = true /\ sig_notified = [2; 15; 3; 10; 12] /\
+  sig_chan_cap = 4 /\ sig_exit_code = 0 /\ timeout_exit_code = 70.
+Proof. repeat split; try reflexivity; vm_compute; discriminate. Qed.
+Theorem sig_action_spec : forall sig a, sig_action sig a = if sig =? 10 then (0, a) else if a then (2, a) else (1, true).
+Proof. exact C14.ProofsProc.sig_action_spec. Qed.
+
+(* where the full statement fails, with witnesses *)
+Theorem close_outside_group_refuted : exists sched,
+  let s := prun_gen direct_close_progs 1 1 sched in
+  p_forced s = false /\ p_alive s = false /\ p_how s = 1 /\ p_req s = [PCut] /\ p_tok_closed s = false /\ spec_ok s = false.
+Proof. exact C14.ProofsProc.close_outside_group_refuted. Qed.
+Theorem second_signal_refuted : exists sched,
+  let s := prun 1 1 sched in p_forced s = true /\ p_how s = 2 /\ p_code s = sig_exit_code /\ p_req s = [PCut].
+Proof. exact C14.ProofsProc.second_signal_refuted. Qed.
+Theorem signal_before_notify_refuted : exists sched,
+  let s := prun 1 1 sched in p_forced s = true /\ p_how s = 3 /\ p_watch s = false /\ p_req s = [PCut].
+Proof. exact C14.ProofsProc.signal_before_notify_refuted. Qed.
+Theorem proc_grace_period_refuted : exists sched,
+  let s := prun 1 1 sched in p_forced s = true /\ p_alive s = true /\ p_req s = [PTokGone].
+Proof. exact C14.ProofsProc.proc_grace_period_refuted. Qed.
+
+(* non-vacuity: two listeners; requests 0 and 1 are in flight when SIGUSR1 (ignored) and SIGTERM arrive, request 2 comes
+   after Shutdown has begun and is refused; both in-flight requests are answered, then the tokens are closed, then main
+   returns: exit code 0 *)
+Example ex_proc_graceful :
+  let s := prun 2 3 [PThr 0; PThr 0; PThr 0; PThr 0; PThr 0; PThr 1; PReq 0; PReq 1; PReq 0; PSig 10; PWatch; PSig 15; PWatch; PThr 4; PThr 5;
+                     PReq 2; PThr 5; PThr 2; PThr 3; PThr 0;
+                     PReq 0; PReq 0; PReq 0; PReq 0; PReq 0; PReq 0; PReq 1; PReq 1; PReq 1; PReq 1; PReq 1; PReq 1; PReq 1;
+                     PThr 5; PThr 5; PThr 5; PThr 2; PThr 3; PThr 2; PThr 3; PThr 4; PThr 4; PThr 4; PThr 0; PThr 0] in
+  p_req s = [PDone; PDone; PRefused] /\ p_alive s = false /\ p_how s = 1 /\ p_code s = 0 /\ p_forced s = false /\
+  p_tok_closed s = true /\ spec_ok s = true.
+Proof. vm_compute. repeat split; reflexivity. Qed.
+(* an idle server: SIGINT, shutdown, exit 0 *)
+Example ex_proc_idle :
+  let s := prun 1 0 (startup ++ [PSig 2; PWatch; PThr 3; PThr 4; PThr 4; PThr 4; PThr 4; PThr 2; PThr 2; PThr 0; PThr 0]) in
+  p_alive s = false /\ p_how s = 1 /\ p_code s = 0 /\ p_tok_closed s = true.
+Proof. vm_compute. repeat split; reflexivity. Qed.
+(* the hypotheses of proc_exits are satisfiable: the state right after the watcher has started the shutdown *)
+Example ex_proc_exits_applies :
+  let s := prun 1 0 (startup ++ [PSig 15; PWatch]) in
+  PInv 1 s /\ p_alive s = true /\ p_closing s = true /\ existsb pactive (p_req s) = false /\ p_forced s = false.
+Proof. split; [apply C14.ProofsProc.pinv_run; lia|vm_compute; repeat split; reflexivity]. Qed.
+End ProcProps.
 
 (* =====================================================================================================================
    (e) the lazily created timestamper and package-level mutable state *)
